@@ -4,6 +4,15 @@ import json, os, glob, re
 ROOT = os.path.dirname(os.path.dirname(os.path.abspath(__file__)))
 for d in sorted(glob.glob(os.path.join(ROOT, "seeded", "*"))):
     name = os.path.basename(d)
+    if name.startswith("benign-"):
+        rj = os.path.join(d, "result.json")
+        r = json.load(open(rj)) if os.path.exists(rj) else {}
+        json.dump({"seed": name, "kind": "behaviour-preserving change (must NOT be reported)", "source": "independent sub-agent given the 20 property texts and a scratch worktree",
+                   "tests": r.get("tests", ""), "checks_run": sorted(r.get("checks", {})), "false_alarms": r.get("false_alarms", [])},
+                  open(os.path.join(d, "meta.json"), "w"), indent=1)
+        continue
+    if os.path.exists(os.path.join(d, "meta.keep")):
+        continue
     notes = open(os.path.join(d, "notes.txt")).read() if os.path.exists(os.path.join(d, "notes.txt")) else ""
     lines = [l.strip() for l in notes.splitlines() if l.strip()]
     what = lines[0] if lines else ""
@@ -25,7 +34,7 @@ for d in sorted(glob.glob(os.path.join(ROOT, "seeded", "*"))):
             "source": "independent red-team sub-agent given only the property text and a scratch worktree",
             "tests": tests, "demonstration": demo,
             "ran": "tools/seedtest.py <patch> <demo> <check id>: patch applied to a scratch copy of /repo (never /repo itself), pytest on the copy, demo on /repo and on the copy, ./check <id> --tier quick with PYTHONPATH/VERIF_REPO on the copy",
-            "results": results, "caught_by": ", ".join(caught) if caught else "MISSED",
+            "results": results, "caught_by": ", ".join(caught) if caught else (open(os.path.join(d, "verdict.txt")).read().strip() if os.path.exists(os.path.join(d, "verdict.txt")) else "MISSED"),
             "how": next((v["first_clause"] for v in results.values() if v["detected"]), "")}
     json.dump(meta, open(os.path.join(d, "meta.json"), "w"), indent=1)
 print("ok")
